@@ -550,7 +550,19 @@ func (cu *CellUnion) Encode(w io.Writer) error {
 	return e.err
 }
 
+// maxEncodedCells is the largest number of cells of a CellUnion that can be
+// encoded and decoded.
+const maxEncodedCells = 1000000
+
 func (cu *CellUnion) encode(e *encoder) {
+	if len(*cu) > maxEncodedCells {
+		// decode rejects such a union; report it here rather than write
+		// bytes that cannot be read back.
+		if e.err == nil {
+			e.err = fmt.Errorf("too many cells (%d; max is %d)", len(*cu), maxEncodedCells)
+		}
+		return
+	}
 	e.writeInt8(encodingVersion)
 	e.writeInt64(int64(len(*cu)))
 	for _, ci := range *cu {
@@ -578,9 +590,8 @@ func (cu *CellUnion) decode(d *decoder) {
 	if d.err != nil {
 		return
 	}
-	const maxCells = 1000000
-	if n < 0 || n > maxCells {
-		d.err = fmt.Errorf("invalid number of cells (%d; max is %d)", n, maxCells)
+	if n < 0 || n > maxEncodedCells {
+		d.err = fmt.Errorf("invalid number of cells (%d; max is %d)", n, maxEncodedCells)
 		return
 	}
 	*cu = make([]CellID, n)
